@@ -1379,6 +1379,45 @@ EVENT_LOOPS = {
 }
 
 
+TEARDOWNS = {
+    # what a connection waits for between "the loop ended" and "the slot is released": a closed list
+    r"^jsonrpsee_server::transport::ws::graceful_shutdown::\{closure#0\}$": {
+        r"StreamExt::for_each$": "drain of the pending-call tokens (ends when every handler has answered)",
+        r"TryStreamExt::try_for_each$": "watching the socket for a disconnect while draining (one branch of the select)",
+        r"oneshot::Sender::<.*>::closed$": "the writer task went away",
+        r"^std::future::poll_fn$": "the select over the three above",
+        r"^param:tokio::task::JoinHandle<\(\)>$": "join of the writer task (it was told to stop)",
+    },
+}
+
+
+def teardown_waits_only_for_vetted_things(ctx, rule):
+    """after its loop ended a WebSocket connection still holds its slot until graceful_shutdown returns. What that function
+    may wait for is a closed list, each item bounded by the server's own actions (the handlers' answers, the writer task it
+    has just told to stop). Waiting for the *peer* - e.g. reading the stream until the peer completes the closing handshake
+    - never ends for a peer that was closed for inactivity, so its slot is never released."""
+    F, R = ctx.F, ctx.R
+    tr = ctx.tracer(follow_callers=False, follow_fields=False, inline_calls=False)
+    n = 0
+    for pat, vetted in TEARDOWNS.items():
+        b = F.one(pat)
+        R.fn(b)
+        for c in b.calls_to(r"IntoFuture>?::into_future$"):
+            n += 1
+            names = set()
+            for l in tr.origins(b, c.args[0]):
+                if l.kind == "call":
+                    names.add(l.detail.get("callee") or "?")
+                elif l.kind in ("param", "field"):
+                    pl = op_place(c.args[0])
+                    names.add("param:" + (b.locals[pl["l"]]["ty"] if pl is not None else "?"))
+                else:
+                    names.add(leaf_str(l)[:60])
+            ok = bool(names) and all(any(re.search(v, nm) for v in vetted) for nm in names)
+            R.check(ok, rule, "%s:await:%s" % (fkey(b), "+".join(sorted(short(x) for x in names))[:80]), "the teardown waits at a vetted point (%s)" % ", ".join(sorted(short(x) for x in names)), "%s awaits %s: that is not one of the vetted waits of the connection teardown. The connection's slot is released only after this function returns, so a wait that depends on the peer (a silent peer closed for inactivity never answers) keeps the slot for ever" % (short(b.path), sorted(short(x) for x in names)), where(c))
+    R.floor(rule, n, 4, "await points in the connection teardown")
+
+
 def event_loops_suspend_only_where_vetted(ctx, rule):
     """the accept loop and the per-connection WebSocket loop are what notices a new connection (and answers 429), a stop
     request, a vanished peer (and so frees the connection's slot). While such a loop is suspended on anything else it does
